@@ -50,6 +50,9 @@ def concretise(scs, lits) -> str:
                 doc += [f"    {p['name']} : {ANN_BY_T[lit['t']] if lit else 'int'}", f"        The {p['name']}."]
             doc.append('    """')
             out += [f"def f{i}({ps}):", *doc, "    ...", ""]
+        elif ck == "refunction":
+            first = sc["params"][0]["name"] if sc["params"] and sc["params"][0]["kind"] in ("pos", "posonly") else "p1"
+            out += [f"def f{i}({first}=7, zold=8): ...", "", f"def f{i}({ps}): ...", ""]
         elif ck == "function":
             out += [f"def f{i}({ps}): ...", ""]
         else:
@@ -64,7 +67,7 @@ def concretise(scs, lits) -> str:
 def observe(sc, stubs: Stubs, idx) -> dict:
     i, ck = sc["id"], sc["ck"]
     none = {"missing": True, "stub": [], "json": []}
-    if ck in ("function", "docfunction"):
+    if ck in ("function", "docfunction", "refunction"):
         tops = stubs.top(f"f{i}")
         if len(tops) != 1:
             return none
